@@ -247,13 +247,26 @@ func doRead(ms *yang.Modules, op readOp) string {
 	}
 	switch op.Op {
 	case "toentry":
-		if e.Node == nil {
-			return "nil-node"
+		// entry lookup from the cache: the module, and the AST node behind this
+		// entry when it is one that Process converted (and hence cached) itself;
+		// leaf-lists and implicit cases are built from synthetic nodes that are
+		// never cached, so looking those up would convert them: not a read
+		r := "entry:" + yang.ToEntry(ms.Modules[op.Mod]).Name
+		if e.Node != nil {
+			switch e.Node.(type) {
+			case *yang.Container, *yang.List, *yang.Choice, *yang.Notification, *yang.RPC, *yang.Action, *yang.Input, *yang.Output, *yang.AnyData, *yang.AnyXML:
+				if c := yang.ToEntry(e.Node); c != nil {
+					r += "/" + c.Name
+				}
+			case *yang.Case:
+				if st := e.Node.Statement(); st != nil && st.Keyword == "case" {
+					if c := yang.ToEntry(e.Node); c != nil {
+						r += "/" + c.Name
+					}
+				}
+			}
 		}
-		if yang.ToEntry(ms.Modules[op.Mod]) == nil {
-			return "nil"
-		}
-		return "entry:" + yang.ToEntry(ms.Modules[op.Mod]).Name
+		return r
 	case "find", "findrel":
 		f := e.Find(op.Arg)
 		if f == nil {
